@@ -5,7 +5,7 @@ cd "$(dirname "$0")/.."
 T=${2:-quick}
 EV=$(mktemp -d /tmp/clean-ev-XXXX)
 for s in $1; do
-  for c in $(seq -w 1 18); do
+  for c in ${CHECKS:-$(seq -w 1 18)}; do
     t0=$(date +%s)
     VERIF_SEED=$s VERIF_EVIDENCE_DIR=$EV VERIF_OUT_DIR=$EV timeout 7200 bin/check C$c $T > $EV/one.log 2>&1; rc=$?
     echo "seed=$s C$c $T rc=$rc $(( $(date +%s) - t0 ))s $(grep -v '^Picked' $EV/one.log | tail -n 1 | cut -c1-200)"
